@@ -439,11 +439,13 @@ def rule_codec_sent(ctx, repo, only=False):
             k, init = repo.find_method(cls, "__init__")
             ps = [a.arg for a in init.args.args][1:] if init is not None else []
             req = ps       # optional parameters too: the fields they feed are serialised when set
+            stage = "constructor"
             try:
                 ent = it.construct(cls, [("atom", ("E", p)) for p in req], {}, {"@module": cls.module, "@owner": None}, 0, None)
+                stage = "serialiser"
                 node = it.method_call(ent, "toProtocolTreeNode", [], {}, {"@module": cls.module}, 0, None)
             except _Raise as r:
-                return {"raised": r.text or "", "node": None, "it": it}, it
+                return {"raised": r.text or "", "node": None, "it": it, "stage": stage}, it
             return {"raised": None, "node": node, "it": it}, it
         try:
             cells = enumerate_cells(run1, {}, max_cells=300)
@@ -451,6 +453,12 @@ def rule_codec_sent(ctx, repo, only=False):
             ctx.note("%s: not analysed for C09.codec (%s)" % (cls.name, type(e).__name__))
             continue
         good = [rs for c_, rs in cells if rs["node"] is not None]
+        if not good and all(rs.get("stage") == "serialiser" for c_, rs in cells) and len({(rs["raised"] or "")[:40] for c_, rs in cells}) == 1:
+            # the entity can be built from any arguments, and its serialiser raises the same error for all of them: the
+            # kind can never be put on the wire
+            n += 1
+            ctx.violate("C09.codec", w, "%s.toProtocolTreeNode" % cls.name, "the serialiser of this sendable entity raises for every input (%s): no stanza is ever produced for it" % (cells[0][1]["raised"] or "")[:80])
+            continue
         if not good:
             ctx.note("%s: serialisation of a default-constructed entity raises (%s): not analysed for C09.codec" % (cls.name, (cells[0][1]["raised"] or "")[:60]))
             continue
